@@ -185,8 +185,8 @@ theorem strLoop_run (tl : Bytes) (i : List Bytes) (start : Nat) :
       rw [ih m _ (c :: b) (Rep.plain _ _ _) hrest (by simp at hn; omega)]
       simp [renderItems, StrItem.render]
     | esc c =>
-      simp only [StrItem.WF, decide_eq_true_eq] at hw
-      obtain ⟨h0, hrest⟩ := hw
+      simp only [StrItem.WF, Bool.and_eq_true, decide_eq_true_eq] at hw
+      obtain ⟨⟨h0, h10⟩, hrest⟩ := hw
       have hr' : Rep st (92 :: c :: (renderItems its ++ 34 :: tl)) b i := by
         simpa [renderItems, StrItem.render] using hr
       rw [strLoop, hr.err, nextByte_false st 92 _ b i hr' (by decide)]
@@ -195,7 +195,7 @@ theorem strLoop_run (tl : Bytes) (i : List Bytes) (start : Nat) :
       simp only [Option.isNone_none, if_true, e1, if_false, G_eof, Bool.false_eq_true, e2,
         decide_false, Bool.or_self]
       rw [nextByte_false _ c _ (92 :: b) i (Rep.plain _ _ _) h0]
-      simp only
+      simp only [h10, decide_false, Bool.and_false, Bool.false_eq_true, if_false]
       rw [ih m _ (c :: 92 :: b) (Rep.plain _ _ _) hrest (by simp at hn; omega)]
       simp [renderItems, StrItem.render]
 
